@@ -255,6 +255,7 @@ package fit
 //@   ensures [size] err == nil ==> (d.h.Size == 12 || d.h.Size == 14)
 //@   ensures [consumed] err == nil ==> pos(d.r) == old(pos(d.r))+int(d.h.Size)
 //@   ensures [bounded] pos(d.r) >= old(pos(d.r)) && pos(d.r) <= old(pos(d.r))+14
+//@   ensures [bounded-size] (d.h.Size == 12 || d.h.Size == 14) ==> pos(d.r) <= old(pos(d.r))+int(d.h.Size)
 //@   ensures [clean-eof-only] iserr(err, errReadSize) ==> cleanEnd(d.r, old(pos(d.r))) && pos(d.r) == old(pos(d.r))
 //@   ensures [clean-eof-reported] cleanEnd(d.r, old(pos(d.r))) ==> iserr(err, errReadSize)
 //@   assigns d.h.Size, d.h.ProtocolVersion, d.h.ProfileVersion, d.h.DataSize, d.h.DataType, d.h.CRC, d.tmp[..], pos(d.r), dyncrc16.GhostSum(d.crc)
@@ -580,16 +581,33 @@ package fit
 //@   requires file_inv(d)
 //@   assigns d.file.UnknownMessages
 
+//@ lemma frame_exact(pos int, p0 int, n int, i int, j int, size byte, dsize uint32)
+//@   props C10 C11
+//@   hyp pos-n-(j-i) == p0+int(size)+2 && n == int(dsize) && i == j
+//@   concl pos == p0+int(size)+int(dsize)+2
+
+//@ lemma frame_bound(pos int, p0 int, n int, i int, j int, size byte, dsize uint32)
+//@   props C10 C11
+//@   timeout 90
+//@   hyp pos-n-(j-i) <= p0+int(size)+2 && 0 <= n+(j-i) && n+(j-i) <= int(dsize) && 0 <= p0 && p0 < 1<<50 && 0 <= pos && pos < 1<<50 && 0 <= n && n <= 1<<33 && 0 <= j-i && j-i <= 4096
+//@   concl pos <= p0+int(size)+int(dsize)+2
+
 //@ pred fresh_decoder(d *decoder) := !d.debug && d.bytes.i == 0 && d.bytes.j == 0 && d.bytes.n == 0 && d.timestamp == 0 && d.lastTimeOffset == 0 && d.file == nil && d.unknownFields == nil && d.unknownMessages == nil && (forall s in 0..16 :: d.defmsgs[s] == nil)
 
 //@ func (d *decoder) decode(r io.Reader, headerOnly bool, fileIDOnly bool, crcOnly bool) (err error)
 //@   props C01 C10 C11
 //@   requires [reader] r != nil
 //@   requires [fresh] fresh_decoder(d)
-//@   ensures [exact] err == nil && !headerOnly && !fileIDOnly ==> pos(r) == old(pos(r))+int(d.h.Size)+int(d.h.DataSize)+2
+//@@ C10 is stated on the conserved quantity framepos (= bytes delivered minus bytes accounted for); the
+//@@ closed form "consumes exactly Size+DataSize+2" follows by lemma frame_exact / frame_bound below
+//@   ensures [reader-kept] same(d.r, r)
+//@   ensures [exact-frame] err == nil && !headerOnly && !fileIDOnly && !crcOnly ==> framepos(d) == old(pos(r))+int(d.h.Size)+2
+//@   ensures [exact-data] err == nil && !headerOnly && !fileIDOnly && !crcOnly ==> d.bytes.n == int(d.h.DataSize) && d.bytes.i == d.bytes.j
+//@   ensures [exact-crconly] err == nil && crcOnly && !headerOnly ==> d.bytes.n == 0 && d.bytes.i == d.bytes.j && pos(r) == old(pos(r))+int(d.h.Size)+int(d.h.DataSize)+2
 //@   ensures [header-only] err == nil && headerOnly ==> pos(r) == old(pos(r))+int(d.h.Size)
 //@   ensures [monotone] pos(r) >= old(pos(r))
-//@   ensures [never-past-frame] (d.h.Size == 12 || d.h.Size == 14) ==> pos(r) <= old(pos(r))+int(d.h.Size)+int(d.h.DataSize)+2
+//@   ensures [bounded-frame] (d.h.Size == 12 || d.h.Size == 14) && !crcOnly ==> framepos(d) <= old(pos(r))+int(d.h.Size)+2 && 0 <= d.bytes.n+(d.bytes.j-d.bytes.i) && d.bytes.n+(d.bytes.j-d.bytes.i) <= int(d.h.DataSize)
+//@   ensures [bounded-crconly] (d.h.Size == 12 || d.h.Size == 14) && crcOnly ==> pos(r) <= old(pos(r))+int(d.h.Size)+int(d.h.DataSize)+2
 //@   ensures [bad-header] !(d.h.Size == 12 || d.h.Size == 14) ==> pos(r) <= old(pos(r))+14
 //@   ensures [file] err == nil ==> d.file != nil
 //@   assigns allfields(d), pos(r)
